@@ -283,7 +283,8 @@ def run_shard(spec, rng, ctx):
     mid_end = C.now() + 0.15 * float(spec.get("budget_s", 60))
     while C.now() < mid_end:
         k = rng.choice([4, 4, 4, 5])
-        vals = [rng.randint(1, rng.choice([30, 100, 100, 300])) for _ in range(10 if k == 4 else rng.randint(9, 10))]
+        top = rng.choice([30, 100, 100, 300])          # one range per instance: snp needs seconds when a single item dwarfs the others, and this phase lives on volume
+        vals = [rng.randint(1, top) for _ in range(10 if k == 4 else rng.randint(9, 10))]
         judge_snp_mid({"kind": "partition", "k": k, "values": vals, "cls": "snp_mid", "pres": rng.choice(["list", "list", "dict_str"]), "pres_seed": rng.randrange(1 << 30), "alg": "snp",
                        **({"sums_only": True} if rng.random() < 0.3 else {})}, ctx)
     probes = standard_probes().start()
@@ -308,7 +309,8 @@ def run_shard(spec, rng, ctx):
             k = rng.choice([4, 4, 4, 5])
             # 10 items is the sweet spot (snp ~50 ms); the thorough tier also goes to 11-12 items
             n = 10 if (spec.get("tier") != "thorough" or rng.random() < 0.7) else rng.randint(11, 12 if k == 4 else 11)
-            run_certificate_pair(k, [rng.randint(1, rng.choice([30, 100, 100, 100, 300])) for _ in range(n)], rng, ctx)
+            top = rng.choice([30, 100, 100, 100, 300]) if rng.random() < 0.8 else None          # mostly one range per instance (snp needs seconds when one item dwarfs the rest)
+            run_certificate_pair(k, [rng.randint(1, top or rng.choice([30, 100, 300])) for _ in range(n)], rng, ctx)
         while i < spec["max_instances"] and C.now() < end:
             if i % 8 == 5:
                 # complete Karmarkar-Karp / snp focus on cheap sizes (2-3 bins, 6-9 mid-sized values): instance volume for rare coincidences in their pruning
